@@ -833,6 +833,46 @@ def replay_h2(info):
 # ---------------------------------------------------------------------------------------------
 # driver
 # ---------------------------------------------------------------------------------------------
+TOKEN_PAIRS = [
+    # two accepted formulas that differ in ONE token must not give the same design (or one of them is refused)
+    ("y ~ g[a]", "y ~ g[zz]"), ("y ~ x:g[a]", "y ~ x:g[b]"), ("y ~ (1|g[a])", "y ~ (1|g[b])"), ("y ~ (x|g[a])", "y ~ (x|g[zz])"), ("g[a] ~ x", "g[b] ~ x"),
+    ("y ~ less(x, by=1, by=2)", "y ~ less(x, by=5, by=2)"), ("y ~ less(x, 1)", "y ~ less(x, 2)"), ("y ~ less(x, by=z)", "y ~ less(x, by=x)"),
+    ("y ~ less(x, '1')", 'y ~ less(x, "2")'), ("y ~ x + (1|g)", "y ~ x + (z|g)"), ("y ~ {x + 1}", "y ~ {x + 2}"), ("y ~ I(x ** 2)", "y ~ I(x ** 3)"),
+]
+
+
+def concrete_token_pairs(rep):
+    """the whole pipeline (not only the parser) ignores no token: formulas that differ in one token are
+    refused or give designs that differ (plain API on one concrete frame)"""
+    import numpy as np
+    import pandas as pd
+    from formulae import design_matrices
+
+    df = pd.DataFrame({"y": [1.0, 2.0, 0.5, 4.0, 3.0, 2.5], "x": [1.0, 2.0, 3.0, 5.0, 8.0, 13.0], "z": [0.5, 0.25, 2.0, 1.0, 4.0, 3.0], "g": list("abcabc")})
+
+    def less(a, by):
+        return a - float(by) if not hasattr(by, "__len__") or isinstance(by, str) else a - by
+
+    def snap(f):
+        try:
+            dm = design_matrices(f, df, extra_namespace={"less": less})
+        except Exception as e:  # noqa
+            return ("refused", type(e).__name__)
+        out = []
+        for m in (dm.response, dm.common, dm.group):
+            out.append(None if m is None else np.asarray(m.design_matrix, dtype=float).round(12).tolist())
+        return ("ok", out, None if dm.common is None else [str(c) for c in dm.common.as_dataframe().columns])
+
+    n = 0
+    for a, b in TOKEN_PAIRS:
+        n += 1
+        sa, sb = snap(a), snap(b)
+        if sa[0] == "ok" and sb[0] == "ok" and sa[1] == sb[1]:
+            rep.violations.append({"label": "a token is ignored by the pipeline", "signature": {"harness": "pairs", "what": "a token is ignored by the pipeline", "formulas": [a, b]},
+                                   "replay": {"formulas": [a, b]}, "reproduced": True, "detail": f"{a!r} and {b!r} are both accepted and give the same matrices"})
+    rep.extra["token_pairs"] = n
+
+
 def _work(job):
     core.setup_paths()
     core.silence_logging()
@@ -952,8 +992,16 @@ def run(tier, seed):
     # vacuity: accepted sentences must have been reached, and obligations discharged
     if rep.nontrivial == 0:
         rep.inconclusive.append("vacuous: no accepted sentence was reached")
+    concrete_token_pairs(rep)
     return core.finish(rep)
 
 
 def replay_file(v):
+    if v["signature"].get("harness") == "pairs":
+        rep = core.Report(ID, "quick", 0)
+        a, b = v["replay"]["formulas"]
+        global TOKEN_PAIRS
+        TOKEN_PAIRS = [(a, b)]
+        concrete_token_pairs(rep)
+        return bool(rep.violations), (rep.violations[0]["detail"] if rep.violations else "the two formulas are refused or give different designs")
     return (replay_h1 if v["signature"]["harness"] == "h1" else replay_h2)(v["replay"])
